@@ -173,3 +173,20 @@ package ipfshttp
 //@   requires cfg != nil
 //@   at_call Config.applyJSONConfig assert [defaults-first] defaultsN == old(defaultsN) + 1
 //@   modifies *
+
+// the arguments of a pin/add request: recursive unless the depth is 0 (a direct pin), and the depth limit itself for a
+// positive depth ("holds that CID in the requested mode")
+//@ func pinArgs
+//@   property C16
+//@   ensures [recursive-unless-direct] qget(q, "recursive") == ite(maxDepth == 0, "false", "true")
+//@   ensures [depth-limit-carried] maxDepth > 0 ==> qget(q, "max-depth") == libfn("strconv.Itoa", 0, maxDepth)
+//@   ensures [no-limit-otherwise] maxDepth <= 0 ==> !haskey(q, "max-depth")
+//@   modifies nothing
+
+// the full listing: a failure answered by the daemon (an error WITH its error document) is a failure of the listing,
+// not an empty listing
+//@ func (ipfs *Connector) PinLs
+//@   property C16 C06
+//@   ensures [daemon-error-is-an-error] lastPostErr != nil ==> err != nil && isnil(res)
+//@   loop 1 (range res.Keys)
+//@   modifies postN, postOK, lastPostErr
